@@ -374,7 +374,11 @@ func (env *Env) ident(name string) Val {
 				}
 			}
 			if !isParam {
-				env.fail("variable %s is not live here", name)
+				var live []string
+				for al := range env.st.cells {
+					live = append(live, fmt.Sprintf("%s@%p", al.Comment, al))
+				}
+				env.fail("variable %s (%p) is not live here; live: %v", name, a, live)
 			}
 		}
 		for i, p := range fn.Params {
@@ -628,6 +632,12 @@ func (env *Env) callExpr(n *ast.CallExpr) Val {
 			sub.qdepth++
 			body := sub.evalBool(n.Args[3])
 			rng := And(e.ar.idxLe(lo, qv), e.ar.idxLt(qv, hi))
+			if nb, nv, B := rebaseQuantifier(body.S, qv.S, e.ar.mode == ModeBV); B != "" {
+				bt := Term{B, e.ar.idxSort()}
+				body = Term{nb, SBool}
+				qv = Term{nv, e.ar.idxSort()}
+				rng = And(e.ar.idxLe(e.ar.idxAdd(bt, lo), qv), e.ar.idxLt(qv, e.ar.idxAdd(bt, hi)))
+			}
 			var trig [][]Term
 			for _, t := range inferTriggers(body.S, qv.S) {
 				trig = append(trig, []Term{{S: t}})
@@ -668,7 +678,11 @@ func (env *Env) callExpr(n *ast.CallExpr) Val {
 				env.fail("old() not available here")
 			}
 			sub := *env
-			sub.st = env.old
+			// old() switches the heap to the entry heap; local variables keep their current values
+			hyb := env.old.clone()
+			hyb.cells = env.st.cells
+			hyb.guard = env.st.guard
+			sub.st = hyb
 			// inside old(), parameter names denote entry values
 			if env.fr != nil {
 				sub.bound = make(map[string]Val)
